@@ -61,6 +61,12 @@ func VerifBuffered(c net.Conn) int {
 	return cc.buffer.Count()
 }
 
+// VerifSetConnLimit sets the packet-count limit of the connection's buffer (a slow reader's full buffer, reached cheaply).
+func VerifSetConnLimit(c net.Conn, n int) {
+	cc, _ := c.(*Conn)
+	cc.buffer.SetLimitCount(n)
+}
+
 // VBatchConnHook, when set, supplies the batch reader/writer of the BatchConn that Listen creates
 // (the instrumented copy of conn.go calls vNewBatchConn): the real NewBatchConn runs, then its
 // platform batch connection is replaced by the in-memory one.
